@@ -16,6 +16,15 @@
 //!                     concurrently; 2 queue-full path with the runtime thread held;
 //!                     3 forced window of the full-queue path (sched point
 //!                     REMOTE_SPIN_RETRY of compio_executor::verif).
+//!   mode 5 (external loop on a real Runtime) a = wake source, b = rounds, c = queue size.
+//!                     The harness plays the host event loop: run() / flush() / sleep on
+//!                     the runtime's descriptor (libc::poll, bounded by a watchdog) /
+//!                     poll_with(Some(0)). Sources: 0 a host-loop callback ON THE RUNTIME'S
+//!                     OWN THREAD wakes a task after flush() and before the sleep; 1 another
+//!                     thread wakes it during the sleep; 2 a timer; 3 I/O readiness; 4 a
+//!                     same-thread callback between run() and flush(); 5 same-thread wake of
+//!                     the loop's own waker (Runtime::waker) after flush(). A lost wake is
+//!                     observed as "slept the whole watchdog with a runnable task".
 //! out:  [mode; drv; r1; r2; r3; r4; n; (kind thread arg)*n]   (meaning of r* per mode)
 //!       the events are the AwakeFlag / notifier / enter hook events, thread 0 =
 //!       the driver thread.
@@ -549,6 +558,178 @@ fn executor(drv: u64, sub: u64, q: u64, c: u64, seed: u64) -> Result<Vec<u64>, B
     Ok(out)
 }
 
+// ---------------------------------------------------------------------------
+// mode 5: a host event loop drives a real Runtime through its descriptor
+
+const LOOP_WATCHDOG_MS: u64 = 1500;
+
+fn ext_loop(drv: u64, source: u64, rounds: u64, q: u64, seed: u64) -> Result<Vec<u64>, BadCase> {
+    use compio_driver::{
+        SharedFd,
+        op::{Recv, RecvFlags},
+    };
+    use std::{cell::Cell, io::Write, os::unix::net::UnixStream, rc::Rc};
+
+    if source > 5 || rounds == 0 || rounds > 200 || q == 0 || q > 4096 {
+        return Err(BadCase);
+    }
+    verif::start();
+    verif::emit(MARK, 0, 0);
+    let mut pb = ProactorBuilder::new();
+    pb.driver_type(driver_type(drv));
+    let mut rb = RuntimeBuilder::new();
+    rb.with_proactor(pb).sync_queue_size(q as usize);
+    let rt = rb.build().map_err(|_| BadCase)?;
+    let fd = rt.as_raw_fd();
+    let mut rng = Rng(seed | 1);
+
+    let probes: Vec<Arc<Probe>> = (0..3).map(|_| Probe::new()).collect();
+    let handles: Vec<_> = probes.iter().map(|p| rt.spawn(ProbeFut(p.clone()))).collect();
+    // first run: the tasks are polled once and export their wakers
+    rt.enter(|| rt.run());
+
+    let mut lost = 0u64;
+    let mut max_sleep = 0u64;
+    let mut done_rounds = 0u64;
+    let mut helpers: Vec<std::thread::JoinHandle<()>> = Vec::new();
+
+    for _ in 0..rounds {
+        // what has to happen in this round: returns true once the woken thing ran
+        let target = probes[(rng.next() % probes.len() as u64) as usize].clone();
+        let before = target.polls.load(SeqCst);
+        let flag = Rc::new(Cell::new(false));
+        let mut pending_io: Option<(UnixStream, u64)> = None;
+        let mut extra = None;
+        match source {
+            2 => {
+                let f = flag.clone();
+                let ms = 2 + rng.next() % 12;
+                extra = Some(rt.enter(|| {
+                    rt.spawn(async move {
+                        compio_runtime::time::sleep(Duration::from_millis(ms)).await;
+                        f.set(true);
+                    })
+                }));
+            }
+            3 => {
+                let (a, b) = UnixStream::pair().map_err(|_| BadCase)?;
+                let f = flag.clone();
+                let sfd = SharedFd::new(a);
+                extra = Some(rt.enter(|| {
+                    rt.spawn(async move {
+                        let op = Recv::new(sfd, Vec::with_capacity(8), RecvFlags::empty());
+                        let _ = compio_runtime::submit(op).await;
+                        f.set(true);
+                    })
+                }));
+                pending_io = Some((b, 1 + rng.next() % 4));
+            }
+            _ => {}
+        }
+        let satisfied = |target: &Arc<Probe>, flag: &Rc<Cell<bool>>| match source {
+            2 | 3 => flag.get(),
+            5 => true, // the loop's own waker: the only obligation is not to sleep the watchdog out
+            _ => target.polls.load(SeqCst) > before,
+        };
+
+        let mut woke = false;
+        let mut full_sleeps = 0u64;
+        let round_start = Instant::now();
+        loop {
+            let mut remaining = rt.enter(|| rt.run());
+            if woke && satisfied(&target, &flag) {
+                break;
+            }
+            if source == 4 && !woke {
+                // host callback between run() and flush(), on the runtime's own thread
+                if let Some(w) = target.waker.lock().unwrap().clone() {
+                    w.wake_by_ref();
+                }
+                woke = true;
+            }
+            remaining |= rt.flush();
+            if !woke {
+                match source {
+                    0 => {
+                        // host callback after flush(), before the loop sleeps, same thread
+                        if let Some(w) = target.waker.lock().unwrap().clone() {
+                            w.wake_by_ref();
+                        }
+                    }
+                    5 => rt.waker().wake(),
+                    1 => {
+                        let w = target.waker.lock().unwrap().clone();
+                        let us = rng.next() % 3000;
+                        helpers.push(std::thread::spawn(move || {
+                            std::thread::sleep(Duration::from_micros(us));
+                            if let Some(w) = w {
+                                w.wake();
+                            }
+                        }));
+                    }
+                    3 => {
+                        if let Some((mut peer, ms)) = pending_io.take() {
+                            helpers.push(std::thread::spawn(move || {
+                                std::thread::sleep(Duration::from_millis(ms));
+                                let _ = peer.write(&[7u8]);
+                                // keep the peer open until the harness is done with the round
+                                std::thread::sleep(Duration::from_millis(50));
+                            }));
+                        }
+                    }
+                    _ => {}
+                }
+                woke = true;
+            }
+            let timeout_ms = if remaining {
+                0
+            } else {
+                rt.current_timeout()
+                    .map(|d| (d.as_millis() as u64 + 1).min(LOOP_WATCHDOG_MS))
+                    .unwrap_or(LOOP_WATCHDOG_MS)
+            };
+            let t = Instant::now();
+            let is_readable = readable(fd, timeout_ms as i32);
+            let slept = t.elapsed().as_millis() as u64;
+            max_sleep = max_sleep.max(slept);
+            if !is_readable && timeout_ms == LOOP_WATCHDOG_MS {
+                // the loop slept the whole watchdog although something was woken
+                full_sleeps += 1;
+            }
+            rt.poll_with(Some(Duration::ZERO));
+            if source == 5 {
+                // nothing to run: judge the sleep itself
+                let _ = rt.enter(|| rt.run());
+                break;
+            }
+            if round_start.elapsed() > Duration::from_millis(3 * LOOP_WATCHDOG_MS) {
+                full_sleeps += 1;
+                break;
+            }
+        }
+        if full_sleeps > 0 {
+            lost += 1;
+        }
+        drop(extra);
+        done_rounds += 1;
+    }
+    for h in helpers {
+        let _ = h.join();
+    }
+    for p in &probes {
+        p.done.store(true, SeqCst);
+        if let Some(w) = p.waker.lock().unwrap().clone() {
+            w.wake();
+        }
+    }
+    rt.enter(|| rt.run());
+    drop(handles);
+    drop(rt);
+    let mut out = vec![5, drv, source, done_rounds, max_sleep.min(100_000), lost];
+    encode_log(&mut out);
+    Ok(out)
+}
+
 fn run(case: &[u64]) -> Result<Vec<u64>, BadCase> {
     let mut c = Case::new(case);
     let mode = c.take()?;
@@ -565,6 +746,7 @@ fn run(case: &[u64]) -> Result<Vec<u64>, BadCase> {
         2 => window(drv, a),
         3 => external(drv, a),
         4 => executor(drv, a, b, cc, seed),
+        5 => ext_loop(drv, a, b, cc, seed),
         _ => Err(BadCase),
     }
 }
